@@ -222,4 +222,45 @@ def WF (d : Dict κ ν) : Prop := (d.map (·.1)).Nodup
 
 end Dict
 
+/-! ## sets of hashables: duplicate-free lists.  `Set` is a definition, not an abbreviation: generated code can
+    reach the elements only through the functions below, none of which depends on the order; iteration over a
+    set is not translated (Python does not specify its order). -/
+
+def Set (α : Type) : Type := List α
+
+namespace Set
+variable {α : Type}
+
+def empty : Set α := ([] : List α)
+instance : Inhabited (Set α) := ⟨empty⟩
+
+/-- the elements (for proofs and the self-test's codec; generated code never calls it) -/
+def toList (s : Set α) : List α := s
+
+/-- `len(s)` -/
+def len (s : Set α) : Int := (List.length (toList s) : Int)
+
+/-- `not s` -/
+def isEmpty (s : Set α) : Bool := List.isEmpty (toList s)
+
+variable [DecidableEq α]
+
+/-- `x in s` -/
+def contains (s : Set α) (x : α) : Bool := decide (x ∈ toList s)
+
+/-- `s.add(x)` -/
+def add (s : Set α) (x : α) : Set α := if x ∈ toList s then s else (toList s ++ [x] : List α)
+
+/-- `s.discard(x)` -/
+def discard (s : Set α) (x : α) : Set α := (List.filter (fun y => !decide (y = x)) (toList s) : List α)
+
+/-- `s.remove(x)`, `KeyError` when absent -/
+def remove? (s : Set α) (x : α) : Except PyExc (Set α) :=
+  if x ∈ toList s then .ok (discard s x) else .error PyExc.KeyError
+
+/-- `set(iterable)` -/
+def ofList (l : List α) : Set α := l.foldl (fun acc x => add acc x) empty
+
+end Set
+
 end PyRt
